@@ -41,7 +41,7 @@ macro_rules! user_grammar {
     ($m:ident, $ty:ident, $tr:ident, $trm:ident) => {
         mod $m {
             use super::Ev;
-            use crate::$trm::{A, B, Tog, Semi, $tr};
+            use crate::$trm::{A, B, Tog, Semi, Q, R, S, T, U, Bang, $tr};
             use parol_runtime::{Result, Token};
             #[derive(Default)]
             pub struct $ty<'t> { pub events: Vec<Ev>, _p: std::marker::PhantomData<&'t ()> }
@@ -50,6 +50,12 @@ macro_rules! user_grammar {
                 fn b(&mut self, x: &B<'t>) -> Result<()> { self.events.push(Ev { kind: 'b', start: x.b.location.start as usize, end: x.b.location.end as usize }); Ok(()) }
                 fn tog(&mut self, x: &Tog<'t>) -> Result<()> { self.events.push(Ev { kind: '#', start: x.tog.location.start as usize, end: x.tog.location.end as usize }); Ok(()) }
                 fn semi(&mut self, x: &Semi<'t>) -> Result<()> { self.events.push(Ev { kind: ';', start: x.semi.location.start as usize, end: x.semi.location.end as usize }); Ok(()) }
+                fn bang(&mut self, x: &Bang<'t>) -> Result<()> { self.events.push(Ev { kind: '!', start: x.bang.location.start as usize, end: x.bang.location.end as usize }); Ok(()) }
+                fn q(&mut self, x: &Q<'t>) -> Result<()> { self.events.push(Ev { kind: 'q', start: x.q.location.start as usize, end: x.q.location.end as usize }); Ok(()) }
+                fn r(&mut self, x: &R<'t>) -> Result<()> { self.events.push(Ev { kind: 'r', start: x.r.location.start as usize, end: x.r.location.end as usize }); Ok(()) }
+                fn s(&mut self, x: &S<'t>) -> Result<()> { self.events.push(Ev { kind: 's', start: x.s.location.start as usize, end: x.s.location.end as usize }); Ok(()) }
+                fn t(&mut self, x: &T<'t>) -> Result<()> { self.events.push(Ev { kind: 't', start: x.t.location.start as usize, end: x.t.location.end as usize }); Ok(()) }
+                fn u(&mut self, x: &U<'t>) -> Result<()> { self.events.push(Ev { kind: 'u', start: x.u.location.start as usize, end: x.u.location.end as usize }); Ok(()) }
                 fn on_comment(&mut self, t: Token<'t>) { self.events.push(Ev { kind: 'c', start: t.location.start as usize, end: t.location.end as usize }); }
             }
         }
@@ -109,7 +115,7 @@ impl<'t> TreeConstruct<'t> for Collector {
 // ---------------- oracle: reference tokenizer of the toy grammar ----------------
 #[derive(Debug, Clone, PartialEq)]
 struct RTok { ty: u16, start: usize, end: usize, skip: bool }
-const NL: u16 = 1; const WS: u16 = 2; const LC: u16 = 3; const BC: u16 = 4; const A: u16 = 5; const B: u16 = 6; const TOG: u16 = 7; const SEMI: u16 = 8; const ERR: u16 = 9;
+const NL: u16 = 1; const WS: u16 = 2; const LC: u16 = 3; const BC: u16 = 4; const A: u16 = 5; const B: u16 = 6; const TOG: u16 = 7; const SEMI: u16 = 8; const TQ: u16 = 9; const TR: u16 = 10; const TS: u16 = 11; const TT: u16 = 12; const TU: u16 = 13; const BANG: u16 = 14; const ERR: u16 = 15;
 const INVALID: u16 = u16::MAX - 1;
 fn reference_tokens(s: &str) -> Vec<RTok> {
     let b = s.as_bytes();
@@ -134,16 +140,18 @@ fn reference_tokens(s: &str) -> Vec<RTok> {
         // the toggle is significant when read in INITIAL and skipped when read in ALT (ALT's skip list names it); it switches the state either way
         if c == b'#' { push(&mut out, &mut gap_start, RTok { ty: TOG, start: i, end: i + 1, skip: alt }); i += 1; alt = !alt; continue; }
         if c == b';' { push(&mut out, &mut gap_start, RTok { ty: SEMI, start: i, end: i + 1, skip: false }); i += 1; continue; }
+        if let Some(k) = b"qrstu".iter().position(|x| *x == c) { push(&mut out, &mut gap_start, RTok { ty: TQ + k as u16, start: i, end: i + 1, skip: false }); i += 1; continue; }
         if !alt {
-            if rest.starts_with("//") {
+            if rest.starts_with("//") || rest.starts_with("--") {
                 let mut j = i; while j < b.len() && b[j] != b'\n' { j += 1; } if j < b.len() { j += 1; }
                 push(&mut out, &mut gap_start, RTok { ty: LC, start: i, end: j, skip: true }); i = j; continue;
             }
             if rest.starts_with("/*") { if let Some(p) = rest[2..].find("*/") {
                 let j = i + 2 + p + 2;
                 push(&mut out, &mut gap_start, RTok { ty: BC, start: i, end: j, skip: true }); i = j; continue; } }
-            // any other character: the error token (one char)
+            // any other character: the terminal `/./ ?= /!/` when the next character is `!`, else the error token (one char)
             let n = rest.chars().next().unwrap().len_utf8();
+            if c != b'\r' && rest[n..].starts_with('!') { push(&mut out, &mut gap_start, RTok { ty: BANG, start: i, end: i + n, skip: false }); i += n; continue; }
             push(&mut out, &mut gap_start, RTok { ty: ERR, start: i, end: i + n, skip: false }); i += n; continue;
         }
         // ALT mode: unmatched text is tolerated and becomes one gap token up to the next match
@@ -180,8 +188,8 @@ fn run(v: usize, input: &str) -> Run {
 
 const CLAUSES: [(&str, &str); 11] = [
     ("C08 C14 C16 C17 C19 C20", "parse does not panic"),
-    ("C08 C14 C16 C17 C20", "acceptance: success iff the input is a sentence of the toy grammar (no error token, every `;` directly after an `a`; skipped tokens do not matter)"),
-    ("C14", "tree leaves are contiguous, in order, start at 0 and end at the input length"),
+    ("C08 C14 C16 C17 C20", "acceptance: success iff the input is a sentence of the toy grammar (independent reference recognizer; skipped tokens do not matter)"),
+    ("C14 C16", "tree leaves are contiguous, in order, start at 0 and end at the input length"),
     ("C14 C16", "leaf texts equal the input slices of their byte ranges (texts concatenate to the input)"),
     ("C14 C16", "leaf token types and ranges equal the reference tokenization (significant, skipped, comments, unmatched gaps)"),
     ("C14", "line/column positions of scanner-produced leaves match the text"),
@@ -191,6 +199,19 @@ const CLAUSES: [(&str, &str); 11] = [
     ("C19", "parse returns: no single parse runs longer than the watchdog limit (30 s)"),
     ("C19 C20", "depth limit: a limit that is not reached changes nothing; an exceeded limit yields the MaxParsingDepthExceeded error value (or the unlimited outcome), never a panic or another result"),
 ];
+/// independent recognizer of Start: { Item }; Item: a | b | # | a ; | q r s t | q u
+fn is_item_list(t: &[u16]) -> bool {
+    let mut p = 0;
+    while p < t.len() {
+        p = match t[p] {
+            A => if p + 1 < t.len() && t[p + 1] == SEMI { p + 2 } else { p + 1 },
+            B | TOG | BANG => p + 1,
+            TQ => if t[p + 1..].starts_with(&[TR, TS, TT]) { p + 4 } else if t[p + 1..].starts_with(&[TU]) { p + 2 } else { return false },
+            _ => return false,
+        };
+    }
+    true
+}
 /// index of the first violated clause
 fn check(v: usize, input: &str) -> Option<usize> {
     let want = reference_tokens(input);
@@ -198,8 +219,7 @@ fn check(v: usize, input: &str) -> Option<usize> {
     if r.panicked { return Some(0); }
     // sentence of the toy grammar: no error token, and every significant `;` directly follows a significant `a`
     let sigs: Vec<u16> = want.iter().filter(|t| !t.skip).map(|t| t.ty).collect();
-    let semi_ok = (0..sigs.len()).all(|i| sigs[i] != SEMI || (i > 0 && sigs[i - 1] == A));
-    let expect_ok = !want.iter().any(|t| t.ty == ERR) && semi_ok;
+    let expect_ok = !want.iter().any(|t| t.ty == ERR) && is_item_list(&sigs);
     if r.ok != expect_ok { return Some(1); }
     if !r.ok { return None; }
     let trimmed = v == 2 || v == 3;
@@ -222,7 +242,7 @@ fn check(v: usize, input: &str) -> Option<usize> {
 }
 fn check_events(r: &Run, want: &[RTok]) -> Option<usize> {
     let acts: Vec<(char, usize)> = r.events.iter().filter(|e| e.kind != 'c').map(|e| (e.kind, e.start)).collect();
-    let want_acts: Vec<(char, usize)> = want.iter().filter(|t| !t.skip).map(|t| (match t.ty { A => 'a', B => 'b', SEMI => ';', _ => '#' }, t.start)).collect();
+    let want_acts: Vec<(char, usize)> = want.iter().filter(|t| !t.skip).map(|t| (match t.ty { A => 'a', B => 'b', SEMI => ';', TQ => 'q', TR => 'r', TS => 's', TT => 't', TU => 'u', BANG => '!', _ => '#' }, t.start)).collect();
     if acts != want_acts { return Some(7); }
     let cms: Vec<(usize, usize)> = r.events.iter().filter(|e| e.kind == 'c').map(|e| (e.start, e.end)).collect();
     let want_cms: Vec<(usize, usize)> = want.iter().filter(|t| t.ty == LC || t.ty == BC).map(|t| (t.start, t.end)).collect();
@@ -351,7 +371,7 @@ fn check2(v: usize, input: &str) -> Option<usize> {
     None
 }
 const PIECES2: [&str; 9] = ["n", "+", "(", ")", " ", "\n", "//c\n", "/*c*/", "?"];
-const PIECES: [&str; 12] = ["a", "b", "#", " ", "\n", "//c\n", "/*c*/", "?", "ä", "//", "\t", ";"];
+const PIECES: [&str; 20] = ["a", "b", "#", " ", "\n", "//c\n", "/*c*/", "?", "ä", "//", "\t", ";", "q", "r", "s", "t", "u", "--a\n", "-", "!"];
 fn esc(s: &str) -> String { s.chars().map(|c| format!("{}", c as u32)).collect::<Vec<_>>().join(",") }
 static PROGRESS: std::sync::atomic::AtomicU64 = std::sync::atomic::AtomicU64::new(0);
 static CURRENT: std::sync::Mutex<String> = std::sync::Mutex::new(String::new());
